@@ -220,3 +220,16 @@ def oracle_c18(line, go):
 SERVER_ORACLES = {
     "C06": oracle_c06, "C10": oracle_c10, "C13": oracle_c13, "C14": oracle_c14, "C17": oracle_c17, "C19": oracle_c19, "C18": oracle_c18,
 }
+
+
+def finding_goaway_enhance_your_calm(line, go):
+    """Used only to replay a known finding: the history ends in GOAWAY(ENHANCE_YOUR_CALM)."""
+    groups, _ = parse_server_result(go)
+    for gi, it in items(groups):
+        if it.startswith("G") and it.endswith(":11"):
+            return "GOAWAY(ENHANCE_YOUR_CALM) for a request whose header list is over the limit (a stream-scoped offence)"
+    return None
+
+
+FINDING_ORACLES = dict(SERVER_ORACLES)
+FINDING_ORACLES["goaway-enhance-your-calm"] = finding_goaway_enhance_your_calm
